@@ -2,8 +2,9 @@
 """tools_seed_file.py <PID> <k> <caught: quick|thorough|missed> "<needs>" "<note>": file a confirmed sub-agent change under seeded/."""
 import json, os, shutil, sys
 pid, k, caught, needs, note = sys.argv[1:6]
-src = f"/tmp/seed/{pid}"
-dst = f"/verif/seeded/{pid}-{k}"
+src = os.environ.get("SD_BASE", "/tmp/seed") + f"/{pid}"
+newk = os.environ.get("FILE_AS", k)          # number under which it is filed (second-round changes continue the numbering)
+dst = f"/verif/seeded/{pid}-{newk}"
 os.makedirs(dst, exist_ok=True)
 shutil.copy(f"{src}/patch{k}.diff", f"{dst}/patch.diff")
 shutil.copy(f"{src}/demo{k}.py", f"{dst}/demo.py")
